@@ -35,6 +35,7 @@ var c16Lines = []string{
 	"write(\";\")",
 	"s = \"ab",
 	"cd\"",
+	"t = \"ab\\", // a string left open by a line that ends in the escape character
 	"write(\"\\\"\")",
 	"write(\"\\\\\")",
 	"a = 2 ; has { brace",
@@ -456,7 +457,7 @@ func init() {
 	core.Register(&core.Check{
 		ID:    "C16",
 		Level: "model_checking",
-		Rule: "(a) explicit-state search over all sequences of length <= 4 (quick) / 5 (thorough) of 21 script lines (one-line statements, block openers / closers / else, an array literal and a string split over lines, strings containing { [ } ; an escaped quote and a backslash, comments containing { \" [, blank lines) fed to the real read-eval loop through the real file reader (with and without final newline) and through an in-memory line reader (REPL style) with a recording parser: the inputs handed to the parser must be, token for token, the statements a lexer-aware splitter finds; " +
+		Rule: "(a) explicit-state search over all sequences of length <= 4 (quick) / 5 (thorough) of 22 script lines (one-line statements, block openers / closers / else, an array literal and a string split over lines, a string line ending in the escape character, strings containing { [ } ; an escaped quote and a backslash, comments containing { \" [, blank lines) fed to the real read-eval loop through the real file reader (with and without final newline) and through an in-memory line reader (REPL style) with a recording parser: the inputs handed to the parser must be, token for token, the statements a lexer-aware splitter finds; " +
 			"(b) every script of <= 2 (quick) / 3 (thorough) statements from a 43-statement alphabet (expressions of every value kind, function definitions and calls, multi-line blocks, loops, strings with every special character, a multi-line string, comments, a multi-line array literal, a runtime error, dependent statements) through the built cmd/calc binary in -eval, piped-REPL and file mode (with and without final newline): each mode's output must be what in-process statement-by-statement execution predicts; (c) inputs that cannot be executed (a statement too large for the instruction format; inputs that end inside an open array literal, block, nested literal or string) in all four modes: no mode aborts, every mode prints the diagnostic -eval prints, the statements around them run. states = distinct (nesting depth, open string, pending text) accumulator states of the model; transitions = lines fed",
 		Assumptions:     []string{"ill-formed line sequences (a closer without opener, an unfinished block at end of file) are skipped and counted in family (a); family (c) judges the unfinished ones on the built binary", "runtime error reports are compared on their first line only (addresses and instruction numbers differ between modes)"},
 		NeedsCalcBinary: true,
